@@ -66,6 +66,10 @@ Definition judge (c : case05) : nat :=
   | None => v_unmodelled
   | Some _ =>
     if existsb finding_d (srcs c) && agree05 c then v_known 1
+    (* F-C05-i: the same class value twice (.a.a): __attrs drops the verbatim duplicate, the property keeps every
+       class value in source order *)
+    else if forallb src_ok (srcs c) && negb (tmp_nodupb (class_recs (lower (srcs c)))) && agree05 c
+            && negb (oracle05 c) then v_known 2
     else verdict (dom_C05 (srcs c)) (oracle05 c) (agree05 c)
   end.
 
